@@ -255,5 +255,8 @@ def run(ctx, rep):
     loopstate.rule(ctx, rep, "C06", ['validation::check_imports', 'validation::check_declared_parcelables', 'validation::resolve_types'])
     import pipeline
     pipeline.rule(ctx, rep, "C06", ['resolve_types', 'check_imports', 'check_declared_parcelables'])
+    rep.rule("LX", "lexical agreement (C03 A10, re-evaluated here): the property quantifies over documents - token classes, their priorities, the keyword rule, comments and white space must be the reference ones (a changed comment / number / keyword regex silently drops or merges members)")
+    import lexical
+    lexical.rules(ctx, rep, "C06", {"trivia", "classes", "priority", "keywords", "tokenizer"})
     rep.assumptions += ["TB-1 rustc MIR", "TB-4 tabulator", "TB-3 HashMap entry / contains semantics; iteration yields every stored entry once",
                         "the fold and the loops carry no state between elements besides the map and the append-only diagnostics"]
